@@ -768,8 +768,11 @@ SEEDS = [
          (_T, "        copied_state = mdib_state.mk_copy()\n        copied_state.increment_state_version()\n        self._state_updates[descriptor_handle] = TransactionItem(mdib_state, copied_state)",
           "        copied_state = mdib_state.mk_copy()\n        self._state_updates[descriptor_handle] = TransactionItem(mdib_state, copied_state)")),
     seed('write_entity: old + 1 only when adjust is off', 'C02.R2',
-         (_T, "            elif adjust_version_counter:\n                tmp.StateVersion = old_state.StateVersion + 1",
-          "            elif not adjust_version_counter:\n                tmp.StateVersion = old_state.StateVersion + 1")),
+         (_T, "            elif adjust_version_counter:\n                tmp.DescriptorVersion = descriptor_container.DescriptorVersion\n                tmp.StateVersion = old_state.StateVersion + 1",
+          "            elif not adjust_version_counter:\n                tmp.DescriptorVersion = descriptor_container.DescriptorVersion\n                tmp.StateVersion = old_state.StateVersion + 1")),
+    seed('context write_entity keeps the DescriptorVersion of the entity copy (the defect repaired by 4f31561)', 'C02.R7',
+         (_T, "            elif adjust_version_counter:\n                tmp.DescriptorVersion = descriptor_container.DescriptorVersion\n                tmp.StateVersion = old_state.StateVersion + 1",
+          "            elif adjust_version_counter:\n                tmp.StateVersion = old_state.StateVersion + 1")),
     seed('mk_context_state forgets set_version', 'C02.R2',
          (_T, "        if context_state_handle is not None and adjust_state_version:\n            self._mdib.context_states.set_version(new_state_container)\n",
           "")),
